@@ -32,8 +32,16 @@ def check(case):
     r.label(*input_labels(samples))
     fw = opts["fw"]
     r.label("fw:" + fw)
-    ok, b = unowned(r, pl.build, samples, opts)
+    extra = [tuple(x) for x in case.get("extra_models") or []]
+    if extra:
+        r.label("several-root-models")
+    ok, b = unowned(r, pl.build, samples, opts, "Root", extra)
     if not ok:
+        return r
+    if extra and any(len({gen.fold(k) for k in m.type}) != len(m.type) for m in b.reg.models):
+        # models of different roots were merged and pooled fold-equal keys of unrelated objects: finding folded-equal-keys
+        # (K1), excluded from this check's domain like fold-equal keys of one object are (counted as skipped)
+        r.skip = "excluded:folded-equal-keys-in-one-merged-model"
         return r
     tree = pl.is_tree(b.reg, roots_referenced=True)
     dag = (not tree) and len(b.roots) == 1 and pl.is_acyclic(b.reg)
@@ -170,7 +178,7 @@ def cases(tier="quick"):
 
 
 def valid(case):
-    return c01.valid(case)
+    return c03.valid(case)
 
 
 def phases(tier):
